@@ -558,7 +558,8 @@ def partitions(tier):
                 if q and mode != 'ack' and d != 'pn532':
                     continue
                 add("accept:%s:%s:%d" % (d, mode, n), "accept_pn53x",
-                    driver=d, n=n, mode=mode)
+                    driver=d, n=n, mode=mode,
+                    allcodes=int(not q and d == 'pn532' and mode == 'ack'))
     for d in (['pn532'] if q else ['pn532', 'pn533', 'rcs956', 'arygonB']):
         for plen in [252, 253, 254, 255]:
             add("long:%s:%d" % (d, plen), "accept_long", driver=d, plen=plen,
@@ -586,8 +587,14 @@ def partitions(tier):
             add("crcapi:%s:%d" % (kind, n), "crc_api", kind=kind, n=n)
     add("crc:step", "crc_step")
     for d in ['pn532', 'rcs380'] + ([] if q else ['pn531', 'pn533', 'rcs956', 'acr122']):
-        for n in range(0, (6 if q else 10) + 1):
+        for n in range(0, (6 if q else 8) + 1):
             add("tt2crc:%s:%d" % (d, n), "tt2_crc", driver=d, n=n)
+    for p in parts:
+        if p['name'].startswith(("accept:", "long:", "valid:")):
+            # z3's default incremental core; the QF_BV tactic solver needs
+            # seconds..minutes per query on 12+ byte symbolic checksums here,
+            # while it is the fast one for the CRC equivalences
+            p['logic'] = ""
     return parts
 
 
@@ -601,8 +608,8 @@ MUST_REACH = ["built:pn53x:normal", "built:pn53x:extended", "built:ccid",
               "tt2:crc-error", "tt2:short"]
 
 BOUNDS = {
-    "quick": "construction: every command code of the chipset's CMD table x payload lengths {0,1,2,3,250..257,262,263 as far as the chip's maximum allows} (pn531, pn532 full set; pn533, rcs956, arygon A/B subset), ACR122 {0..3,250..252}, RC-S380 {0..3,252..257,289,290}, all payload contents; acceptance: every byte string of length 0..10 as response (pn532: after the ACK, instead of the ACK, and without a command for every response code; pn531: after the ACK), valid long frames with payload 252..255 (LEN 254..257) with 1-3 positions out of {LEN,LCS,bytes 5-7,TFI,code,middle,last,DCS,postamble} overwritten (31 position sets) or cut/extended by 1-2 bytes, ACR122 responses of length 0..16; CRC: calculate_crc == ISO 13239 reference for all messages of 0..8 bytes (CRC_A and CRC_B presets) and one byte from an arbitrary register; add_crc_a/b, check_crc_a/b for messages of 0..4 bytes; Type 2 Tag response CRC check of pn532 and rcs380 for responses of 0..6 bytes",
-    "thorough": "as quick with all six PN53x chipset classes, response strings 0..16 (ACR122 0..22), CRC equivalence 0..24 bytes plus 32/48/64 (CRC_A), add/check 0..12 bytes, Type 2 Tag check for six drivers and 0..10 bytes",
+    "quick": "construction: every command code of the chipset's CMD table x payload lengths {0,1,2,3,250..257,262,263 as far as the chip's maximum allows} (pn531, pn532 full set; pn533, rcs956, arygon A/B subset), ACR122 {0..3,250..252}, RC-S380 {0..3,252..257,289,290}, all payload contents; acceptance: every byte string of length 0..10 as response for command codes 02h/42h/8Ch (pn532: after the ACK, instead of the ACK, and with cmd_data=None; pn531: after the ACK), valid long frames with payload 252..255 (LEN 254..257) with 1-3 positions out of {LEN,LCS,bytes 5-7,TFI,code,middle,last,DCS,postamble} overwritten by arbitrary bytes (31 position sets) or cut/extended by 1-2 bytes, well-formed responses with 0..262 arbitrary payload bytes are returned intact, ACR122 responses of length 0..16 through command() and ccid_xfr_block(); CRC: calculate_crc == ISO 13239 reference for all messages of 0..5 bytes in one query and of 2..8, 12, 16 bytes by solver-checked induction over the prefixes (CRC_A and CRC_B presets), one byte from an arbitrary 16-bit register; add_crc_a/b, check_crc_a/b for all messages of 0..4 bytes and all CRC byte pairs; Type 2 Tag response CRC check of pn532 and rcs380 for all responses of 0..6 bytes",
+    "thorough": "as quick with all six PN53x chipset classes, response strings 0..16 (pn532 after-ACK: every command code of the table; ACR122 0..22), CRC equivalence 0..7 bytes in one query and every length 2..24 by prefix induction, add/check 0..6 bytes, Type 2 Tag check for six drivers and 0..8 bytes",
 }
 OUTSIDE = [
     "response byte strings longer than the bound other than the edited long frames; more than three overwritten positions in a long frame",
@@ -618,4 +625,4 @@ ASSUMPTIONS = [
     "in crcapi/tt2crc partitions calculate_crc is replaced (symbolic mode only) by that translation; native replays of every path use the real function",
     "env/hostlink.py HostLink delivers whole frames; chipset objects are built by their real __init__ (ACR122/RC-S380 with the initialisation dialogue of the repository's tests)",
 ]
-LIMITS = {"quick": dict(max_time=200, logic=""), "thorough": dict(max_time=1500, logic="")}
+LIMITS = {"quick": dict(max_time=200), "thorough": dict(max_time=1500)}
